@@ -99,8 +99,10 @@ impl Parser for Constant {
 
 impl Parser for IntConstant {
     fn parse(input: &str) -> IResult<&str, IntConstant> {
-        alt((
-            preceded(tag("-"), map(IntConstant::parse, |d| IntConstant(-d.0))),
+        // leading `-` signs are counted in a loop: parsing them by recursion, one level per
+        // sign, let a long run of them exhaust the stack
+        let (input, signs) = nom::multi::many0_count(tag("-"))(input)?;
+        let (input, v) = alt((
             preceded(
                 tag("0x"),
                 map_res(hex_digit1, |d| i64::from_str_radix(d, 16).map(IntConstant)),
@@ -109,7 +111,8 @@ impl Parser for IntConstant {
                 let d = FromStr::from_str(d)?;
                 Ok::<_, ParseIntError>(IntConstant(d))
             }),
-        ))(input)
+        ))(input)?;
+        Ok((input, if signs % 2 == 1 { IntConstant(-v.0) } else { v }))
     }
 }
 
